@@ -194,7 +194,21 @@ func (d *c10Doc) archList(r *core.Rand, name, gofield string, names []string) {
 func (d *c10Doc) dep(r *core.Rand, name, gofield string) model.MDep {
 	ast := gen.Dep(r, 5, 3, r.Bool())
 	var text string
-	if r.Bool() && len(ast) > 1 {
+	if r.Chance(1, 4) {
+		// folds at arbitrary interior token boundaries (inside brackets too): every one is a
+		// continuation line, which reaches the dependency parser as a bare newline
+		d.folded = true
+		text = ast.Render(func(slot string) string {
+			if slot == model.SlStart || slot == model.SlEnd || slot == model.SlNameEnd {
+				return ""
+			}
+			if r.Chance(1, 5) {
+				return "\n"
+			}
+			return model.Canonical(slot)
+		}, false)
+		text = strings.TrimRight(text, "\n")
+	} else if r.Bool() && len(ast) > 1 {
 		d.folded = true
 		text = ast.Render(func(slot string) string {
 			if slot == model.SlAfterComma {
@@ -230,6 +244,14 @@ func genFiles(r *core.Rand, base string) []string {
 		out = append(out, names[i])
 	}
 	return out
+}
+
+// shortName keeps generated file names below the file system's name limit.
+func shortName(s string) string {
+	if len(s) > 40 {
+		return s[:40]
+	}
+	return s
 }
 
 func hexHash(r *core.Rand, n int) string { return r.Str("0123456789abcdef", n) }
@@ -489,7 +511,7 @@ func (p c10) genDSC(r *core.Rand, d *c10Doc) (src string, binaries, archs, uploa
 	if r.Chance(1, 3) {
 		d.dep(r, "Build-Depends-Indep", "BuildDependsIndep")
 	}
-	base := src + "_" + strings.ReplaceAll(ver.V.Upstream, ":", "")
+	base := shortName(src) + "_" + shortName(strings.ReplaceAll(ver.V.Upstream, ":", ""))
 	files = genFiles(r, base)
 	if r.Chance(1, 4) { // no .debian. member
 		var keep []string
@@ -613,7 +635,7 @@ func (p c10) changes(c *core.C, t *core.T, r *core.Rand) {
 		d.list(r, "Closes", "Closes", cl, " ", false)
 	}
 	d.multiline(r, "Changes", "Changes")
-	base := src + "_" + strings.ReplaceAll(ver.V.Upstream, ":", "")
+	base := shortName(src) + "_" + shortName(strings.ReplaceAll(ver.V.Upstream, ":", ""))
 	files := genFiles(r, base)
 	hasDsc := false
 	for _, f := range files {
@@ -922,7 +944,7 @@ func (p c10) sources(c *core.C, r *core.Rand) {
 	coverArchs(c, archs)
 	d.scalar(r, "Standards-Version", "StandardsVersion", r.Pick([]string{"3.9.6", "4.6.2"}))
 	d.scalar(r, "Format", "Format", "3.0 (quilt)")
-	base := pkg + "_" + strings.ReplaceAll(ver.V.Upstream, ":", "")
+	base := shortName(pkg) + "_" + shortName(strings.ReplaceAll(ver.V.Upstream, ":", ""))
 	files := genFiles(r, base)
 	d.sums(r, "Files", "Files", "md5", 32, files)
 	for _, f := range [][2]string{{"Vcs-Browser", "VcsBrowser"}, {"Vcs-Git", "VcsGit"}, {"Vcs-Svn", "VcsSvn"}, {"Vcs-Bzr", "VcsBzr"}} {
